@@ -85,6 +85,45 @@ func hclyamlLoad(pkgPath string) *packages.Package {
 	return p
 }
 
+// hyPkgVarLiteral: e names a package-level variable of p whose declaration initialises it with a composite literal and
+// whose only use in the whole package is e itself: that literal
+func hyPkgVarLiteral(p *packages.Package, e ast.Expr) *ast.CompositeLit {
+	id, ok := e.(*ast.Ident)
+	if !ok {
+		return nil
+	}
+	v, ok := p.TypesInfo.Uses[id].(*types.Var)
+	if !ok || v.Pkg() != p.Types || v.Parent() != p.Types.Scope() {
+		return nil
+	}
+	for other, o := range p.TypesInfo.Uses {
+		if o == v && other != id {
+			return nil
+		}
+	}
+	for _, f := range p.Syntax {
+		for _, d := range f.Decls {
+			gd, ok := d.(*ast.GenDecl)
+			if !ok {
+				continue
+			}
+			for _, sp := range gd.Specs {
+				vs, ok := sp.(*ast.ValueSpec)
+				if !ok || len(vs.Values) != len(vs.Names) {
+					continue
+				}
+				for i, n := range vs.Names {
+					if p.TypesInfo.Defs[n] == v {
+						cl, _ := vs.Values[i].(*ast.CompositeLit)
+						return cl
+					}
+				}
+			}
+		}
+	}
+	return nil
+}
+
 func init() {
 	areas["hclyaml"] = area{
 		pkgPath:   hyCfgPkg,
@@ -1150,8 +1189,12 @@ func hyLocalsFacts(g *hyGen, p *packages.Package) string {
 				key := kv.Key.(*ast.Ident).Name
 				ml, ok := kv.Value.(*ast.CompositeLit)
 				if !ok {
-					g.fail("buildHclContext: %s is not a map literal", key)
-					continue
+					// round 4: the table may be hoisted into a package-level variable that is initialised with the literal
+					// and used NOWHERE else in the package (a harmless refactoring: hcl only reads `Functions`)
+					if ml = hyPkgVarLiteral(p, kv.Value); ml == nil {
+						g.fail("buildHclContext: %s is not a map literal (nor a package-level variable that is initialised with one and used only here)", key)
+						continue
+					}
 				}
 				for _, me := range ml.Elts {
 					mkv, ok := me.(*ast.KeyValueExpr)
